@@ -71,13 +71,36 @@ pub fn ty_in(u: &Universe, t: &Ty, ctx: Option<&AdtDef>) -> String {
     }
 }
 
+thread_local! {
+    /// When set, field types are rendered as `$f<k>` macro fragments and collected here (definitions whose name
+    /// starts with `Mac` are emitted through a `macro_rules!` with `$f:ty` fragments, so that the derive macro
+    /// sees each field type wrapped in a `None`-delimited group).
+    static MAC_FIELDS: std::cell::RefCell<Option<Vec<String>>> = const { std::cell::RefCell::new(None) };
+}
+
+fn field_ty(u: &Universe, d: &AdtDef, t: &Ty) -> String {
+    let src = ty_in(u, t, Some(d));
+    MAC_FIELDS.with(|m| match m.borrow_mut().as_mut() {
+        Some(v) => {
+            v.push(src.clone());
+            format!("$f{}", v.len() - 1)
+        }
+        None => src,
+    })
+}
+
+/// Definitions rendered through a `macro_rules!` with `ty` fragments.
+pub fn is_macro_made(d: &AdtDef) -> bool {
+    d.name.starts_with("Mac")
+}
+
 fn fields_src(u: &Universe, d: &AdtDef, f: &Fields, vis: &str) -> String {
     match f {
         Fields::Unit => String::new(),
         Fields::Tuple(v) => {
             let mut s = String::from("(");
             for t in v {
-                let _ = write!(s, "{}{}, ", vis, ty_in(u, t, Some(d)));
+                let _ = write!(s, "{}{}, ", vis, field_ty(u, d, t));
             }
             s.push(')');
             s
@@ -85,7 +108,7 @@ fn fields_src(u: &Universe, d: &AdtDef, f: &Fields, vis: &str) -> String {
         Fields::Named(v) => {
             let mut s = String::from(" { ");
             for (n, t) in v {
-                let _ = write!(s, "{}{}: {}, ", vis, n, ty_in(u, t, Some(d)));
+                let _ = write!(s, "{}{}: {}, ", vis, n, field_ty(u, d, t));
             }
             s.push('}');
             s
@@ -95,6 +118,13 @@ fn fields_src(u: &Universe, d: &AdtDef, f: &Fields, vis: &str) -> String {
 
 /// Rust source of one definition.
 pub fn adt_def(u: &Universe, d: &AdtDef) -> String {
+    if is_macro_made(d) && MAC_FIELDS.with(|m| m.borrow().is_none()) {
+        MAC_FIELDS.with(|m| *m.borrow_mut() = Some(vec![]));
+        let body = adt_def(u, d);
+        let tys = MAC_FIELDS.with(|m| m.borrow_mut().take()).unwrap_or_default();
+        let pats: Vec<String> = (0..tys.len()).map(|k| format!("$f{}:ty", k)).collect();
+        return format!("macro_rules! mac_def_{n} {{\n    ({pats}) => {{\n{body}    }};\n}}\nmac_def_{n}!({tys});\n", n = d.name, pats = pats.join(", "), body = body, tys = tys.join(", "));
+    }
     let mut s = String::new();
     let copy = if d.is_zero() { ", Copy" } else { "" };
     let _ = writeln!(s, "#[derive(epserde::Epserde, Clone, Debug{})]", copy);
